@@ -11,6 +11,8 @@ use std::collections::{BTreeMap, BTreeSet};
 
 #[derive(Clone, Debug)]
 pub struct GenCfg {
+    /// append the three-stanza edge idiom (edge attribute put on from another stanza) to 1 in 4 programs
+    pub edge_idiom: bool,
     pub max_stanzas: usize,
     pub max_depth: usize,
     pub max_stmts: usize,
@@ -46,6 +48,7 @@ pub struct GenCfg {
 impl GenCfg {
     pub fn full() -> GenCfg {
         GenCfg {
+            edge_idiom: true,
             max_stanzas: 8,
             max_depth: 4,
             max_stmts: 5,
@@ -943,6 +946,20 @@ impl<'t, 'b> G<'t, 'b> {
         ];
         match self.t.weighted(&weights) {
             0 => {
+                // a node stored on an optional capture, guarded by `some`
+                if !self.in_shorthand_body && self.loop_depth == 0 && can_nest && self.t.chance(1, 5) {
+                    let opts: Vec<String> = self.caps.iter().filter(|c| c.quant == Quant::Opt).map(|c| c.name.clone()).collect();
+                    if !opts.is_empty() {
+                        let c = opts[self.t.choose(opts.len())].clone();
+                        let test = Expr::Capture { id: self.id(), name: c.clone() };
+                        self.mark_cap(&test);
+                        let scope = Expr::Capture { id: self.id(), name: c };
+                        let name = self.fresh_name("optn");
+                        let node = Stmt::Node { id: self.id(), var: VarRef::Scoped { id: self.id(), scope, name } };
+                        self.features.insert("node-on-optional-capture");
+                        return Some(Stmt::If { id: self.id(), arms: vec![IfArm { id: self.id(), conds: vec![Cond::Some(self.id(), test)], body: vec![node] }] });
+                    }
+                }
                 // node into a local or scoped variable
                 if !self.in_shorthand_body && self.t.chance(1, 3) {
                     if let Some(s) = self.scoped_def(depth, true) {
@@ -1336,7 +1353,33 @@ impl<'t, 'b> G<'t, 'b> {
         let target = self.pick_target(false).map(|t| t.0).unwrap_or(Expr::Call { func: "node".into(), args: vec![] });
         let id = self.id();
         self.fault_id = Some(id);
-        Some(match kind {
+        // sometimes the fault sits behind a test on the matched node's position, so that it first
+        // fires in a later match of the stanza
+        let guard: Option<Expr> = if !self.in_shorthand_body && self.t.chance(1, 3) {
+            let ones: Vec<String> = self.caps.iter().filter(|c| c.quant == Quant::One).map(|c| c.name.clone()).collect();
+            if ones.is_empty() {
+                None
+            } else {
+                let name = ones[self.t.choose(ones.len())].clone();
+                let cap = Expr::Capture { id: self.id(), name };
+                self.mark_cap(&cap);
+                let row = Expr::Call { func: "start-row".into(), args: vec![cap] };
+                let r = self.t.weighted(&[4, 1, 1]) as u32;
+                self.features.insert("fault-behind-position-test");
+                Some(Expr::Call { func: "not".into(), args: vec![Expr::Call { func: "eq".into(), args: vec![row, Expr::Int(r, 0)] }] })
+            }
+        } else {
+            None
+        };
+        let stmt = self.fault_stmt_of(kind, id, target);
+        Some(match guard {
+            Some(g) => Stmt::If { id: self.id(), arms: vec![IfArm { id: self.id(), conds: vec![Cond::Bool(self.id(), g)], body: vec![stmt] }] },
+            None => stmt,
+        })
+    }
+
+    fn fault_stmt_of(&mut self, kind: &'static str, id: Id, target: Expr) -> Stmt {
+        match kind {
             "type-plus" => Stmt::AttrNode { id, node: target, attrs: vec![Attr { name: "f".into(), value: Some(Expr::Call { func: "plus".into(), args: vec![Expr::Str("a".into()), Expr::Int(1, 0)] }) }] },
             "type-not" => Stmt::Let { id, var: VarRef::Plain { id: self.id(), name: self.fresh_name("flt") }, value: Expr::Call { func: "not".into(), args: vec![Expr::Int(1, 0)] } },
             "unknown-function" => Stmt::Let { id, var: VarRef::Plain { id: self.id(), name: self.fresh_name("flt") }, value: Expr::Call { func: "no-such-function".into(), args: vec![Expr::Int(1, 0)] } },
@@ -1361,15 +1404,49 @@ impl<'t, 'b> G<'t, 'b> {
                 if on_edge {
                     body.push(Stmt::Edge { id: self.id(), src: var(self), dst: var(self) });
                 }
-                let a1 = mk(self, "f", 1);
-                let a2 = mk(self, "f", 2);
-                self.fault_pair = Some((a1.id(), a2.id()));
-                body.push(a1);
-                for _ in 0..self.t.choose(3) {
-                    let other = ["g", "h"][self.t.choose(2)];
-                    body.push(mk(self, other, 0));
+                // the two values differ; either may be #null, a string, a boolean or a list
+                let pairs: [(Expr, Expr); 7] = [
+                    (Expr::Int(1, 0), Expr::Int(2, 0)),
+                    (Expr::Null, Expr::Int(1, 0)),
+                    (Expr::Int(1, 0), Expr::Null),
+                    (Expr::Str("a".into()), Expr::Str("b".into())),
+                    (Expr::True, Expr::False),
+                    (Expr::List(vec![Expr::Int(1, 0)]), Expr::List(vec![Expr::Int(1, 0), Expr::Int(2, 0)])),
+                    (Expr::Null, Expr::Str("".into())),
+                ];
+                let (v1, v2) = pairs[self.t.weighted(&[4, 2, 2, 1, 1, 1, 1])].clone();
+                let mut a1 = mk(self, "f", 1);
+                let mut a2 = mk(self, "f", 2);
+                for (st, v) in [(&mut a1, v1), (&mut a2, v2)] {
+                    if let Stmt::AttrNode { attrs, .. } | Stmt::AttrEdge { attrs, .. } = st {
+                        attrs[0].value = Some(v);
+                    }
                 }
-                body.push(a2);
+                if self.t.chance(1, 4) {
+                    // both assignments in one statement: `attr (n) f = 1, g = 0, f = 2`
+                    let mut first = a1;
+                    let second_attr = match &a2 {
+                        Stmt::AttrNode { attrs, .. } | Stmt::AttrEdge { attrs, .. } => attrs[0].clone(),
+                        _ => unreachable!(),
+                    };
+                    if let Stmt::AttrNode { attrs, .. } | Stmt::AttrEdge { attrs, .. } = &mut first {
+                        if self.t.chance(1, 2) {
+                            attrs.push(Attr { name: "g".into(), value: Some(Expr::Int(0, 0)) });
+                        }
+                        attrs.push(second_attr);
+                    }
+                    self.features.insert("conflict-within-one-statement");
+                    self.fault_pair = Some((first.id(), first.id()));
+                    body.push(first);
+                } else {
+                    self.fault_pair = Some((a1.id(), a2.id()));
+                    body.push(a1);
+                    for _ in 0..self.t.choose(3) {
+                        let other = ["g", "h"][self.t.choose(2)];
+                        body.push(mk(self, other, 0));
+                    }
+                    body.push(a2);
+                }
                 Stmt::If { id, arms: vec![IfArm { id: self.id(), conds: vec![Cond::Bool(self.id(), Expr::True)], body }] }
             }
             "undefined-edge" => {
@@ -1416,11 +1493,27 @@ impl<'t, 'b> G<'t, 'b> {
             },
             "scan-non-string" => Stmt::Scan { id, value: Expr::Int(5, 0), arms: vec![ScanArm { regex: "a".into(), body: vec![] }] },
             "for-non-list" => Stmt::For { id, var_id: self.id(), var: self.fresh_name("it"), value: Expr::Set(vec![Expr::Int(1, 0)]), body: vec![] },
-            "regex-capture" => Stmt::Scan {
-                id,
-                value: Expr::Str("ab".into()),
-                arms: vec![ScanArm { regex: "a".into(), body: vec![Stmt::Print { id: self.id(), values: vec![Expr::RegexCap(3)] }] }],
-            },
+            "regex-capture" => {
+                if self.t.chance(1, 2) {
+                    Stmt::Scan {
+                        id,
+                        value: Expr::Str("ab".into()),
+                        arms: vec![ScanArm { regex: "a".into(), body: vec![Stmt::Print { id: self.id(), values: vec![Expr::RegexCap(3)] }] }],
+                    }
+                } else {
+                    // an arm with more groups matches first; a later match of an arm with fewer
+                    // groups names a group only the first arm has
+                    let flt = self.fresh_name("flt");
+                    Stmt::Scan {
+                        id,
+                        value: Expr::Str("ab1".into()),
+                        arms: vec![
+                            ScanArm { regex: "([a-z])([a-z])".into(), body: vec![] },
+                            ScanArm { regex: "[0-9]".into(), body: vec![Stmt::Let { id: self.id(), var: VarRef::Plain { id: self.id(), name: flt }, value: Expr::RegexCap(2) }] },
+                        ],
+                    }
+                }
+            }
             "format-args" => Stmt::Let { id, var: VarRef::Plain { id: self.id(), name: self.fresh_name("flt") }, value: Expr::Call { func: "format".into(), args: vec![Expr::Str("{} {}".into()), Expr::Int(1, 0)] } },
             "type-in-list" => {
                 // an unused variable whose list mixes a plain element with a failing call
@@ -1454,7 +1547,47 @@ impl<'t, 'b> G<'t, 'b> {
             }
             "overflow" => Stmt::Let { id, var: VarRef::Plain { id: self.id(), name: self.fresh_name("flt") }, value: Expr::Call { func: "plus".into(), args: vec![Expr::Int(4294967295, 0), Expr::Int(1, 0)] } },
             _ => Stmt::Let { id, var: VarRef::Plain { id: self.id(), name: self.fresh_name("flt") }, value: Expr::Call { func: "not".into(), args: vec![Expr::Int(1, 0)] } },
-        })
+        }
+    }
+}
+
+impl<'t, 'b> G<'t, 'b> {
+    /// Three stanzas: graph nodes stored on outer syntax nodes under inherited names, an edge
+    /// between them created from an inner node (reached through inheritance), and an attribute
+    /// put on that edge from the outer node again.  Lazy evaluation visits the outer node's
+    /// matches before the inner ones; strict runs the stanzas in file order.
+    fn edge_idiom(&mut self) -> Vec<Stanza> {
+        const OUTER: &[(&str, &str)] = &[("(module) @m", "m"), ("(function_definition) @m", "m"), ("(class_definition) @m", "m")];
+        const INNER: &[(&str, &str)] = &[("(pass_statement) @p", "p"), ("(identifier) @p", "p"), ("(call function: (_) @p)", "p"), ("(expression_statement) @p", "p"), ("(return_statement) @p", "p")];
+        let (a, b) = (self.fresh_name("ea"), self.fresh_name("eb"));
+        self.inherited.insert(a.clone());
+        self.inherited.insert(b.clone());
+        let (opat, ocap) = OUTER[self.t.weighted(&[4, 1, 1])];
+        let (ipat, icap) = INNER[self.t.choose(INNER.len())];
+        let cap = |g: &mut Self, c: &str| Expr::Capture { id: g.id(), name: c.to_string() };
+        let sc = |g: &mut Self, c: &str, n: &str| {
+            let scope = Box::new(Expr::Capture { id: g.id(), name: c.to_string() });
+            Expr::Scoped { id: g.id(), scope, name: n.to_string() }
+        };
+        let mk = |g: &mut Self, query: &str, c: &str, body: Vec<Stmt>| Stanza { id: g.id(), query: query.to_string(), captures: vec![Cap { name: c.to_string(), quant: Quant::One }], body, pool: usize::MAX };
+        let n1 = Stmt::Node { id: self.id(), var: VarRef::Scoped { id: self.id(), scope: cap(self, ocap), name: a.clone() } };
+        let n2 = Stmt::Node { id: self.id(), var: VarRef::Scoped { id: self.id(), scope: cap(self, ocap), name: b.clone() } };
+        let nodes = mk(self, opat, ocap, vec![n1, n2]);
+        let (src, dst) = (sc(self, icap, &a), sc(self, icap, &b));
+        let edge_stmt = Stmt::Edge { id: self.id(), src, dst };
+        let edge = mk(self, ipat, icap, vec![edge_stmt]);
+        // the attribute: from the outer node (visited first by lazy evaluation) or the inner one
+        let (apat, acap) = if self.t.chance(2, 3) { (opat, ocap) } else { (ipat, icap) };
+        let (src, dst) = (sc(self, acap, &a), sc(self, acap, &b));
+        let value = match self.t.choose(3) {
+            0 => None,
+            1 => Some(Expr::Str("w".into())),
+            _ => Some(Expr::Int(7, 0)),
+        };
+        let attr_stmt = Stmt::AttrEdge { id: self.id(), src, dst, attrs: vec![Attr { name: "weight".into(), value }] };
+        let attr = mk(self, apat, acap, vec![attr_stmt]);
+        self.features.insert("edge-attribute-from-another-stanza");
+        vec![nodes, edge, attr]
     }
 }
 
@@ -1718,6 +1851,15 @@ pub fn generate(t: &mut Tape, cfg: &GenCfg) -> Generated {
         tries += 1;
         if let Some(s) = g.stanza() {
             stanzas.push(Item::Stanza(s));
+        }
+    }
+    if cfg.edge_idiom && g.t.chance(1, 4) {
+        let extra = g.edge_idiom();
+        // keep their relative order (strict needs nodes, then edge, then attribute)
+        let mut at: Vec<usize> = (0..extra.len()).map(|_| g.t.choose(stanzas.len() + 1)).collect();
+        at.sort();
+        for (k, (pos, st)) in at.into_iter().zip(extra.into_iter()).enumerate() {
+            stanzas.insert(pos + k, Item::Stanza(st));
         }
     }
     let mut items = vec![];
